@@ -195,7 +195,8 @@ def key_of(e):
     if e["k"] == "Ins":
         return "C20:%s:garbage-in-string-ignored" % base_name(e["ty"], e["name"])
     if e["k"] == "RT" or (e["k"] == "Panic" and e.get("op") in ("marshal", "dump") and "val" in e) or (e["k"] == "Panic" and "val" in e):
-        return rt_key(e) + (":panic" if e["k"] == "Panic" else "")
+        # held = "value": the run of the text encoding/json gives for the value held by value (not addressable)
+        return rt_key(e) + (":held-by-value" if e.get("held") else "") + (":panic" if e["k"] == "Panic" else "")
     return dec_key(e)
 
 
@@ -212,7 +213,7 @@ def describe(e):
         return "%s: the text %s of value %s with %r inserted (%s) = %s decoded %s as %s - the inserted bytes were ignored" % (
             e["name"], txt(e["base"]), short(e["val"]), e["garbage"], e["where"], txt(e["doc"]), e["res"], short(e.get("back")))
     if e["k"] == "RT":
-        return "%s value %s: text %s, err=%r, read back %s" % (e["name"], short(e["val"]), txt(e.get("text")), e["err"], short(e.get("back")))
+        return "%s value %s%s: text %s, err=%r, read back %s" % (e["name"], short(e["val"]), " HELD BY VALUE (json.Marshal of a non-addressable value)" if e.get("held") else "", txt(e.get("text")), e["err"], short(e.get("back")))
     if e["k"] == "Panic":
         return "%s %s PANIC %s on %s" % (e["name"], e.get("op"), e.get("panic", "")[:120], txt(e.get("doc") or e.get("text")) if (e.get("doc") or e.get("text")) else short(e.get("val")))
     return "%s document %s (%s) decoded %s as %s" % (e["name"], txt(e.get("doc")), e.get("mut"), e.get("res"), short(e.get("back")))
@@ -376,13 +377,14 @@ def run(ck):
     # ---- judge every trace with TLC
     results = vlib.parallel(lambda t: judge(ck, t[2], "%s%02d" % (t[0], t[1])), traces, n=8)
     seen_rt, seen_dec, seen_seq = set(), set(), set()
-    nrt = ndec = nrej = nseq = nins = 0
+    nrt = ndec = nrej = nseq = nins = nbyval = 0
     pending = []
     nexcl = 0
     for (kind, i, out), (evs, rej) in zip(traces, results):
         for e in evs:
             if e["k"] == "RT":
                 nrt += 1
+                nbyval += 1 if e.get("byval") or e.get("held") else 0
                 a = e["val"] if e["ty"]["t"] == "addr" else None
                 if a and a["kind"] == "var" and len(a["bits"]) == 256 and -128 <= int(a["wc"]) <= 127:
                     nexcl += 1
@@ -412,6 +414,9 @@ def run(ck):
     if missing:
         raise Infra("types without a judged round trip: %s" % sorted(missing)[:8])
     ck.extra["round_trips_judged"] = nrt
+    ck.extra["round_trips_also_marshalled_held_by_value"] = nbyval
+    if nbyval < nrt // 2:
+        raise Infra("vacuous run: only %d of %d round trips were also marshalled by value" % (nbyval, nrt))
     ck.extra["decodes_judged"] = ndec
     ck.extra["reused_target_steps_judged"] = nseq
     ck.extra["garbage_insertions_judged"] = nins
